@@ -469,6 +469,13 @@ fn jobs(tier: &str) -> Vec<Job> {
                         out.push(Job { sc, part: 1, letters: (0..b.alphabet.len() as u8).collect(), depth: 3 });
                     }
                 }
+                // RRT-Connect whose first goal root is rejected by the checker (it re-samples the root at the
+                // top of solve): the time spent there counts against the same limit
+                if pk == Pk::Connect {
+                    let mut sc = b.scenario(b.world_named("goal-overlap", vec![b.goal_overlap.clone()]), b.params(pk, 1.0, 1.0, 0.0), &format!("C06/landing-invalid-root/{kit}/{}", pk.name()));
+                    sc.goal_root = 1;
+                    out.push(Job { sc, part: 1, letters: b.sub4.clone(), depth: if thorough { 4 } else { 3 } });
+                }
                 // goal bias 1: every sample comes from the goal sampler, so the deadline also lands
                 // inside goal-sampler callbacks (letters index the goal samples)
                 if pk != Pk::Prm {
